@@ -247,3 +247,37 @@ func reloadBad(src []byte, recs []recd) uint16 {
 	}
 	return s
 }
+
+// an index computed differently on two branches, each with its own bound test, and used after the join
+type kern2 struct {
+	data  []byte
+	start uint32
+	ext   bool
+}
+
+func (kd kern2) joinGood(l, r uint16) uint16 {
+	index := int(l) + int(r)
+	if kd.ext {
+		index = int(kd.start) - 12 + 2*index
+		if index < 0 || len(kd.data) < index+2 {
+			return 0
+		}
+	} else if len(kd.data) < index+2 || index < int(kd.start) {
+		return 0
+	}
+	return binary.BigEndian.Uint16(kd.data[index:])
+}
+
+// the same, one branch without its test
+func (kd kern2) joinBad(l, r uint16) uint16 {
+	index := int(l) + int(r)
+	if kd.ext {
+		index = int(kd.start) - 12 + 2*index
+		if index < 0 || len(kd.data) < index+2 {
+			return 0
+		}
+	} else if index < int(kd.start) {
+		return 0
+	}
+	return binary.BigEndian.Uint16(kd.data[index:])
+}
